@@ -304,6 +304,8 @@ def obligations_for(fname, cache, paths):
                 yield (f"{tag} O3: a waiter loads the module only after the ready marker was seen",
                        exec_i is None or (seen is not None and seen < exec_i), p)
                 yield (f"{tag} O3b: a waiter never builds", first_build is None, p)
+                yield (f"{tag} O3f: a waiter never renames or creates files in the cache (the lock belongs to the builder)",
+                       _idx(t, lambda e: e[0] in ("replace", "create")) is None, p)
                 yield (f"{tag} O3c: a waiter returns the loaded objects or raises (TimeoutError after the poll loop)",
                        p["outcome"] == "raise" or exec_i is not None, p)
             else:
